@@ -65,6 +65,7 @@ type VC struct {
 	pathCovers bool // thorough tier: one reachability query per finished path
 	provisionalLoads map[string]bool // field arrays whose entry value stands in for an in-loop re-read (loopModifies)
 	curLoop          *loopInfo
+	loopGhostLocals  map[string]bool // ghost locals assigned by hooks inside the loop being entered
 	entryMeasure   []Term // the function's recursion measure in its entry state (term.go)
 	recursiveCalls int    // call sites found to be recursive (same strongly connected component)
 	callSeq, curCallSeq int // numbering of contract applications (names of per-call unknowns)
